@@ -126,12 +126,20 @@ func MakeTx(ins []wire.OutPoint, unlock [][]byte, outs [][]byte, salt uint32) *w
 	return tx
 }
 
+// CoinbaseScript, when set, is the locking script the coinbase of the next blocks pays to (a
+// harness knob for blocks whose first transaction is relevant to a subscription).
+var CoinbaseScript []byte
+
 func CoinbaseTx(height int, salt uint32) *wire.MsgTx {
 	tx := wire.NewMsgTx(1)
 	op := wire.OutPoint{Index: wire.MaxPrevOutIndex}
 	script := []byte{4, byte(height), byte(height >> 8), byte(salt), byte(salt >> 8)}
 	tx.AddTxIn(wire.NewTxIn(&op, script))
-	tx.AddTxOut(wire.NewTxOut(5000000000, []byte{0x51}))
+	ls := []byte{0x51}
+	if CoinbaseScript != nil {
+		ls = CoinbaseScript
+	}
+	tx.AddTxOut(wire.NewTxOut(5000000000, ls))
 	return tx
 }
 
